@@ -1051,4 +1051,23 @@ def exStmtB : Stmt := [⟨⟨.ident, "message".toList⟩, [], []⟩, ⟨⟨.iden
 
 instance (a b : Stmt) : Decidable (conflict a b) := by unfold conflict; infer_instance
 
+/-! ### the byte order mark (protocompile newLexer) -/
+
+theorem step_bom (cs : Str) : step bomChar cs = (⟨.sym, [bomChar]⟩, cs) := by
+  have h1 : isWs bomChar = false := by decide
+  have h2 : isLetter bomChar = false := by decide
+  have h3 : isDigit bomChar = false := by decide
+  have h4 : ¬ bomChar = '.' := by decide
+  have h5 : ¬ bomChar = '"' := by decide
+  have h6 : ¬ bomChar = '\'' := by decide
+  have h7 : ¬ bomChar = '/' := by decide
+  unfold step
+  simp [h1, h2, h3, h4, h5, h6, h7]
+
+/-- without the lexer's rule a byte order mark would be a symbol token of its own (so a text with
+    one is never `validFormat`-related to its real output: `bom_needs_stripping_counterexample`) -/
+theorem lex_bom (cs : Str) : lex (bomChar :: cs) = ⟨.sym, [bomChar]⟩ :: lex cs := by
+  unfold lex
+  simp only [List.length_cons, lexAux, step_bom]
+
 end BufModel.Format
